@@ -2,6 +2,7 @@ import Uhppote.Gen.Messages
 import Uhppote.Gen.Types
 import Uhppote.Props.C05
 import Uhppote.Gen.Routing
+import Uhppote.Gen.Source
 /-! # C04 — nothing the network or the caller supplies can crash the library
 
 `Outcome.panic` is an explicit outcome of every modelled slice / index operation. Theorems: for
@@ -75,5 +76,18 @@ theorem C04_control_state_render (b : UInt8) :
 /-! non-vacuity: without the guard a wire byte of 7 would index past the table -/
 example : renderControlState 4 false 7 = .panic := by decide
 example : renderControlState 4 false 3 = .ok () := by decide
+
+/-- where the library panics on purpose (regenerated inventory of `panic(…)` calls in the four packages): the five
+    `MustParse…` constructors, whose contract that is; the two "field of an unsupported type" branches of the codec,
+    unreachable for the kinds of `C18`; and `HHmm.before / after` for an argument that is neither a time nor an HH:mm,
+    unreachable through the exported `Before / After` of the two supported types. Every other panic would have to come
+    from an index, a slice, a nil dereference or a map write - which is what the model's explicit `.panic` outcomes
+    and the recover-guarded streams are about. -/
+theorem C04_panic_sites : Gen.Source.panicSites =
+    ["encoding/UTO311-L0x/UT0311-L0x.go:marshal: 1", "encoding/UTO311-L0x/UT0311-L0x.go:unmarshal: 1",
+     "types/HHmm.go:HHmm.before: 1", "types/HHmm.go:HHmm.after: 1",
+     "types/bind_addr.go:MustParseBindAddr: 1", "types/broadcast_addr.go:MustParseBroadcastAddr: 1",
+     "types/controller_addr.go:MustParseControllerAddr: 1", "types/date.go:MustParseDate: 1",
+     "types/listen_addr.go:MustParseListenAddr: 1"] := by decide
 
 end Uhppote.Props.C04
